@@ -160,6 +160,11 @@ def oracle_basic(case, rec):
          "betweenness" + sfx)
 
     if directed:
+        # "Does not respect directionality of links": the value on the simple
+        # undirected graph A or A^T, reciprocated links counted as one link
+        if n <= 14:
+            _cmp(rec, net, "link_betweenness", R.link_betweenness(A),
+                 "link_betweenness_dir")
         # n.s.i. degrees for directed graphs
         _cmp(rec, net, "nsi_indegree", R.nsi_indegree(A, w), "nsi_indegree")
         _cmp(rec, net, "nsi_outdegree", R.nsi_outdegree(A, w),
